@@ -236,6 +236,9 @@ enum Scenario {
     SnapshotAndReader,
     TwoBaselineUpdates,
     TwoChecksSharingCache,
+    /// an explicit snapshot and a passing check with `auto_snapshot_on_check`: two writers of the
+    /// history that reach the append protocol through different code paths
+    SnapshotAndAutoCheck,
 }
 
 fn scenario_case(sink: &mut Sink, bin: &str, scratch: &str, sc: Scenario, choices: &[usize]) -> Option<Vec<usize>> {
@@ -262,6 +265,11 @@ fn scenario_case(sink: &mut Sink, bin: &str, scratch: &str, sc: Scenario, choice
             run_plain(&["snapshot", "--force", "--no-sloc-cache", "--quiet"], base_now - 200);
             run_plain(&["snapshot", "--force", "--no-sloc-cache", "--quiet"], base_now - 100);
             ("history.json", vec![Spec { args: sv(&["snapshot", "--force", "--no-sloc-cache"]), now: base_now }, Spec { args: sv(&["stats", "history", "--format", "json"]), now: base_now + 1 }], "snapshot+stats-history".to_string())
+        }
+        Scenario::SnapshotAndAutoCheck => {
+            std::fs::write(dir.join(".sloc-guard.toml"), "version = \"2\"\n[content]\nmax_lines = 1000\nextensions = [\"rs\"]\n[trend]\nauto_snapshot_on_check = true\n").unwrap();
+            run_plain(&["snapshot", "--force", "--no-sloc-cache", "--quiet"], base_now - 200);
+            ("history.json", vec![Spec { args: sv(&["snapshot", "--force", "--no-sloc-cache"]), now: base_now }, Spec { args: sv(&["check", "--no-sloc-cache", "."]), now: base_now + 1 }], "snapshot+auto-check".to_string())
         }
         Scenario::TwoBaselineUpdates => {
             run_plain(&["check", "--no-sloc-cache", "--quiet", "--update-baseline", "--baseline", "bl.json"], base_now);
@@ -329,8 +337,8 @@ fn scenario_case(sink: &mut Sink, bin: &str, scratch: &str, sc: Scenario, choice
     let mut request = "noop".to_string();
     let mut implementation = "-".to_string();
     match sc {
-        Scenario::TwoSnapshots { .. } | Scenario::ThreeSnapshots | Scenario::SnapshotAndReader => {
-            let writers: Vec<usize> = specs.iter().enumerate().filter(|(_, s)| s.args[0] == "snapshot").map(|(i, _)| i).collect();
+        Scenario::TwoSnapshots { .. } | Scenario::ThreeSnapshots | Scenario::SnapshotAndReader | Scenario::SnapshotAndAutoCheck => {
+            let writers: Vec<usize> = specs.iter().enumerate().filter(|(_, s)| s.args[0] == "snapshot" || (sc == Scenario::SnapshotAndAutoCheck && s.args[0] == "check")).map(|(i, _)| i).collect();
             match history_timestamps(&dir) {
                 Ok(after) => {
                     for t in &before {
@@ -340,7 +348,7 @@ fn scenario_case(sink: &mut Sink, bin: &str, scratch: &str, sc: Scenario, choice
                     }
                     let mut recorded = vec![];
                     for &i in &writers {
-                        let said = res.outcomes[i].stdout.contains("Snapshot recorded");
+                        let said = res.outcomes[i].stdout.contains("Snapshot recorded") || res.outcomes[i].stderr.contains("Auto-snapshot recorded");
                         recorded.push(said);
                         let present = after.contains(&specs[i].now);
                         if said && !present {
@@ -577,6 +585,7 @@ pub fn run(tier: Tier, seed: u64, out: &str) {
             (Scenario::TwoBaselineUpdates, budget(10, 300)),
             (Scenario::TwoChecksSharingCache, budget(8, 200)),
             (Scenario::ThreeSnapshots, budget(6, 120)),
+            (Scenario::SnapshotAndAutoCheck, budget(10, 200)),
         ];
         for (si, (sc, n)) in plan.into_iter().enumerate() {
             for k in 0..n {
